@@ -700,8 +700,8 @@ def assumptions():
         'get_cables / get_wires with selection ALL (cross-hierarchy closure): the enumeration is modelled and compared with the implementation '
         'on every run, but only the clauses that do not depend on it are proved (no duplicates, pattern = filter of unfiltered, pattern order, '
         'fast lookup = scan, callback on top); for INSIDE / OUTSIDE / BOTH the enumeration is proved exact (C13_get_cables, C13_get_wires)',
-        'get_libraries(instance, selection=OUTSIDE, recursive=True): the code ignores recursive; the model follows the code and the theorem '
-        'excludes exactly that case (C13_get_libraries_refuted, C13_get_libraries_instance_outside)',
+        'get_libraries(instance, selection=OUTSIDE, recursive=True) ignored recursive; repaired in the code, the model follows and the '
+        'enumeration theorem holds without exclusion (C13_get_libraries_full_holds; former witness corpus/query/w3-*.json, expect_result 1,12)',
     ]
 
 
